@@ -23,6 +23,7 @@ package snowflake_server
 //@   protects entries, oldest, current, ghost clientIDMap.n, ghost clientIDMap.hid, ghost clientIDMap.haddr
 //@   clause {shape} m.n >= 0 && (len(m.entries) == 0 ==> m.oldest == 0 && m.n == 0) && (len(m.entries) > 0 ==> 0 <= m.oldest && m.oldest < len(m.entries)) && m.n >= m.oldest && (m.n - m.oldest == 0 || m.n - m.oldest >= len(m.entries))
 //@   clause {slots-hold-history} forall k int :: inWindow(m.n, len(m.entries), k) ==> m.entries[slotOf(m.oldest, m.n, len(m.entries), k)].clientID == m.hid[k] && m.entries[slotOf(m.oldest, m.n, len(m.entries), k)].addr == m.haddr[k] && has(m.current, m.hid[k]) && stampOf(m.oldest, m.n, len(m.entries), m.current[m.hid[k]]) >= k
+//@   clause {stored-addresses-non-nil} forall k int :: inWindow(m.n, len(m.entries), k) ==> m.haddr[k] != nil
 //@   clause {current-points-into-window} forall id turbotunnel.ClientID :: has(m.current, id) ==> 0 <= m.current[id] && m.current[id] < len(m.entries) && inWindow(m.n, len(m.entries), stampOf(m.oldest, m.n, len(m.entries), m.current[id])) && m.hid[stampOf(m.oldest, m.n, len(m.entries), m.current[id])] == id
 //
 // The process-wide map is created by the package initialiser and never reassigned.
@@ -40,7 +41,7 @@ package snowflake_server
 //
 //@ func (m *clientIDMap) Set(clientID turbotunnel.ClientID, addr net.Addr)
 //@   props C18
-//@   requires m != nil
+//@   requires m != nil && addr != nil
 //@   at call Unlock ghost m.hid[m.n] = clientID if len(m.entries) != 0
 //@   at call Unlock ghost m.haddr[m.n] = addr if len(m.entries) != 0
 //@   at call Unlock ghost m.n = m.n + 1 if len(m.entries) != 0
@@ -52,6 +53,7 @@ package snowflake_server
 //@   ensures {found-iff-in-window} ok <==> (exists k int :: inWindow(m.n, len(m.entries), k) && m.hid[k] == clientID)
 //@   ensures {latest-address} ok ==> (exists k int :: inWindow(m.n, len(m.entries), k) && m.hid[k] == clientID && a == m.haddr[k] && (forall j int :: k < j && j < m.n ==> m.hid[j] != clientID))
 //@   ensures {nil-when-absent} !ok ==> a == nil
+//@   ensures {non-nil-when-found} ok ==> a != nil
 //
 // clientAddr: the sanitiser cases of the property, with net.ParseIP / IsUnspecified / TCPAddr.String as
 // uninterpreted pure functions (validIP, unspecIP, tcpAddrString).
@@ -73,4 +75,18 @@ package snowflake_server
 //@   requires l != nil && conn != nil
 //@   loop 1 invariant true
 //@   at call queueConn assert {address-is-looked-up-address} unbox(arg1, *SnowflakeClientConn).address == addr
+//@   at call queueConn assert {looked-up-once-when-session-established} calls(Get) == 1
 //@   at call queueConn assert {remote-addr-never-nil} unbox(arg1, *SnowflakeClientConn).address != nil
+//
+// The carrier handler registers this carrier's ClientID with this request's sanitised client_ip.
+//@ func turbotunnelMode(conn net.Conn, addr net.Addr, pconn *turbotunnel.QueuePacketConn) (err error)
+//@   props C18
+//@   requires addr != nil
+//@   flag nosafety
+//@   at call Set assert {registers-this-request-address} arg2 == addr
+//@   at call Set assert {registers-the-id-just-read} arg1 == clientID
+//
+//@ func (handler *httpHandler) ServeHTTP(w http.ResponseWriter, r *http.Request)
+//@   props C18
+//@   flag nosafety
+//@   at call turbotunnelMode assert {address-is-sanitised-client-ip} arg1 == addr && calls(clientAddr) == 1
